@@ -127,6 +127,7 @@ type leaderEnv struct {
 	ops     []string
 	res     []string
 	failed  map[string]bool // classes of the failures seen by WriteBlock so far
+	stuck   bool            // a Close did not return: the case is abandoned
 }
 
 var c13EnvCounter int
@@ -147,12 +148,10 @@ func newLeaderEnv(o *hx.Out, shard int64, tag string) *leaderEnv {
 }
 
 func (l *leaderEnv) close() {
-	if l.lc != nil {
-		_ = l.lc.Close()
-		l.lc = nil
+	if l.closeLeader() && !l.stuck {
+		_ = l.kvf.Close()
+		_ = l.walf.Close()
 	}
-	_ = l.kvf.Close()
-	_ = l.walf.Close()
 	_ = os.RemoveAll(l.dir)
 }
 
@@ -185,7 +184,7 @@ func (l *leaderEnv) head() int64 {
 func (l *leaderEnv) write(w *wreq) string {
 	l.nreq++
 	ctxt := fmt.Sprintf("%s request#%d %s", l.tag, l.nreq, w.String())
-	if !l.leading {
+	if !l.leading || l.lc == nil {
 		return "not-leader"
 	}
 	before := l.head()
@@ -232,11 +231,31 @@ func (l *leaderEnv) write(w *wreq) string {
 	return "ok:" + statusesOf(resp.Puts, putStatus) + ":" + statusesOf(resp.Deletes, delStatus) + ":" + statusesOf(resp.DeleteRanges, rangeStatus)
 }
 
-func (l *leaderEnv) restart(term int64) string {
-	if l.lc != nil {
-		_ = l.lc.Close()
+// closeLeader: LeaderController.Close can wait for ever on a session that was loaded from a session key written by
+// a client (it expires at once and its cleanup needs the controller's lock, which Close holds): only reachable when
+// the validation lets '__oxia/session/...' through. The harness does not wait for it.
+func (l *leaderEnv) closeLeader() bool {
+	if l.lc == nil {
+		return true
 	}
+	lc := l.lc
 	l.lc = nil
+	done := make(chan struct{})
+	go func() { _ = lc.Close(); close(done) }()
+	select {
+	case <-done:
+		return true
+	case <-time.After(c13Step):
+		l.stuck = true
+		l.o.Violation("replay:close-hangs-after-logged-request", fmt.Sprintf("%s: LeaderController.Close does not return (ops: %s)", l.tag, strings.Join(l.ops, ";")))
+		return false
+	}
+}
+
+func (l *leaderEnv) restart(term int64) string {
+	if !l.closeLeader() {
+		return "stuck"
+	}
 	err := l.start(term)
 	if err != nil {
 		l.o.Count("leader:restart-blocked")
@@ -269,10 +288,9 @@ func (l *leaderEnv) readLog() []*proto.LogEntry {
 
 // follower: a fresh follower controller gets the whole log; does its apply loop reach the end?
 func (l *leaderEnv) follower(term int64) string {
-	if l.lc != nil {
-		_ = l.lc.Close()
+	if !l.closeLeader() {
+		return "stuck"
 	}
-	l.lc = nil
 	l.leading = false
 	entries := l.readLog()
 	fdir := filepath.Join(l.dir, "follower")
@@ -384,7 +402,7 @@ func c13LeaderMain(o *hx.Out, f hx.Flags) {
 				// a restart right after a failed write is the interesting instant (the entry is the last of the log)
 				if (res == "err" && crng.Chance(60)) || crng.Chance(6) {
 					term++
-					if l.do(fmt.Sprintf("B:%d", term)) == "blocked" {
+					if l.do(fmt.Sprintf("B:%d", term)) != "ok" {
 						return
 					}
 				}
